@@ -1,7 +1,7 @@
 #!/usr/bin/env python3
 """Re-run, for every kept seeded change, the checks that detected it (seeded/<id>/meta.json: check_runs) against the
 current machinery; prints one line per change and a summary. Results go to <outdir>/<id>.json.
-usage: recheck_seeded.py <outdir> [id-prefix]"""
+usage: recheck_seeded.py <outdir> [id-prefix|-] [shard nshards]"""
 import json
 import os
 import subprocess
@@ -9,10 +9,13 @@ import sys
 
 ROOT = os.path.dirname(os.path.dirname(os.path.abspath(__file__)))
 out = sys.argv[1]
-prefix = sys.argv[2] if len(sys.argv) > 2 else ''
+prefix = sys.argv[2] if len(sys.argv) > 2 and sys.argv[2] != '-' else ''
+shard, nshards = (int(sys.argv[3]), int(sys.argv[4])) if len(sys.argv) > 4 else (0, 1)
 os.makedirs(out, exist_ok=True)
 missed = []
-for d in sorted(os.listdir(os.path.join(ROOT, 'seeded'))):
+for idx, d in enumerate(sorted(os.listdir(os.path.join(ROOT, 'seeded')))):
+    if idx % nshards != shard:
+        continue
     p = os.path.join(ROOT, 'seeded', d)
     mp = os.path.join(p, 'meta.json')
     if not os.path.isfile(mp) or not d.startswith(prefix):
@@ -23,7 +26,7 @@ for d in sorted(os.listdir(os.path.join(ROOT, 'seeded'))):
         checks = [meta['property']]
     of = os.path.join(out, d + '.json')
     if not os.path.exists(of) or os.path.getsize(of) == 0:
-        r = subprocess.run([sys.executable, os.path.join(ROOT, 'tools', 'eval_mutant.py'), p, meta['property'], '--skip-confirm', '--checks', ','.join(checks)],
+        r = subprocess.run([sys.executable, os.path.join(ROOT, 'tools', 'eval_mutant.py'), p, meta['property'], '--skip-confirm', '--fallback-base', '3242983', '--checks', ','.join(checks)],
                            stdout=subprocess.PIPE, stderr=subprocess.STDOUT, text=True)
         open(of, 'w').write(r.stdout)
     try:
